@@ -28,6 +28,8 @@ class Engine:
         self.records = {r["qn"]: r for r in facts["records"] if not r.get("dependent")}
         self.enum_underlying = {e["qn"]: e["underlying"] for e in facts.get("enums", [])}
         self._ft = {}
+        self.steps = 0
+        self.step_limit = 60000
 
     # ------------------------------------------------------------- type info
     def record(self, t):
@@ -41,9 +43,11 @@ class Engine:
             return False
         if t in self.records:
             return True
+        if t.startswith("(lambda"):
+            return True
         if "(" in t:        # function types
             return False
-        return "::" in t or "<" in t or t.startswith("(lambda")
+        return "::" in t or "<" in t
 
     def field_type(self, cls, f, seen=None):
         key = (cls, f)
@@ -164,6 +168,14 @@ class Engine:
         this = self.this_of(ex, n, fr)
         if fn is None:
             return self.extcall(ex, n, fr, c, this, args)
+        if fn.get("lambda") and not isinstance(this, Closure):
+            # a closure we know nothing about (symbolic parameter): its call is
+            # an uninterpreted value of the declared result type
+            rt = rint.clean(c.get("ret"))
+            nm = (this.name if isinstance(this, Obj) else "closure") + "()"
+            if self.is_class(rt):
+                return Obj(rt, nm, symbolic=True)
+            return sym(nm)
         if fn.get("lambda"):
             clo = this
             new = Frame(fn, clo.fields.get("__this") if isinstance(clo, Obj) else None)
@@ -311,6 +323,7 @@ class Engine:
         """all paths of one function from symbolic inputs"""
         paths = []
         stack = [[]]
+        self.steps = 0
         while stack:
             pre = stack.pop()
             ex = Exec(self, pre)
@@ -448,6 +461,8 @@ def bi_memcpy(eng, ex, n, fr, c, args):
 
 
 def bswap_val(v, nbytes):
+    if nbytes == 1:
+        return v
     if isinstance(v, Lin):
         if v.is_const():
             k = v.k & ((1 << (8 * nbytes)) - 1)
@@ -488,15 +503,13 @@ def range_data(ex, first, ln, rev=False):
     if isinstance(first, Lin):
         ex.event("read", first, ln)
         if ln.is_const():
-            return Lin.atom(("wire", first, ln.k, rev))
+            return Lin.atom(("wire", first, ln.k, rev and ln.k > 1))
         return ("range", first, ln, rev)
     if isinstance(first, Ptr):
         v = local_bytes(ex, first, ln)
         if rev:
-            if isinstance(v, Lin) and len(v.terms) == 1:
-                a = v.terms[0][0]
-                if a[0] == "wire":
-                    return Lin.atom(("wire", a[1], a[2], not a[3]))
+            if isinstance(v, Lin) and ln.is_const():
+                return bswap_val(v, ln.k)
             return ("rev", freeze(v))
         return v
     return ("range", freeze(first), ln, rev)
